@@ -5,6 +5,7 @@ E1 = {
     "C01": (["contracts.c01"], ["BaseEliminationOrder.get_elimination_order", "VariableElimination._get_elimination_order"]),
     "C08": (["contracts.c08"], ["DAG._get_ancestors_of", "DAG.active_trail_nodes", "DAG.is_dconnected", "DAG.get_markov_blanket",
                                  "BayesianNetwork.get_markov_blanket", "DAG.moralize", "DAG.get_ancestral_graph", "DAG.local_independencies", "DAG.minimal_dseparator"]),
+    "C09": (["contracts.c09"], ["XMLBIFReader.get_edges", "BIFReader.get_edges", "NETReader.get_edges"]),
     "C10": (["contracts.c10"], ["StructureScore.score"]),
     "C11": (["contracts.c11"], ["HillClimbSearch._legal_operations"]),
     "C13": (["contracts.c13"], ["DAG.do", "CausalInference.is_valid_backdoor_adjustment_set"]),
